@@ -74,6 +74,10 @@ inductive Simple where
   | storeOldPlus (k : Nat) (o : Ord)
   /-- `self.0.store(old - k, ord)` (wrapping): a NON-atomic update of the counter. -/
   | storeOldMinus (k : Nat) (o : Ord)
+  /-- `self.0.fetch_sub(n, ord);` with the result discarded (e.g. a compensating decrement). -/
+  | rmwSub (n : Nat) (o : Ord)
+  /-- `self.0.fetch_add(n, ord);` with the result discarded. -/
+  | rmwAdd (n : Nat) (o : Ord)
   deriving DecidableEq, Repr, Inhabited, Hashable
 
 /-- One step of a counter method.  Every method has one local register `old` holding the
@@ -107,8 +111,13 @@ structure Proto where
 
 /-- A straight-line statement that writes the counter without reading it atomically. -/
 def Simple.isStore : Simple → Bool
-  | .fence _ => false
-  | _ => true
+  | .storeOldPlus .. | .storeOldMinus .. => true
+  | _ => false
+
+/-- A fence (the only straight-line statement that does not touch the counter). -/
+def Simple.isFence : Simple → Bool
+  | .fence _ => true
+  | _ => false
 
 /-- A step that contains a plain `store` (top level or inside a branch arm). -/
 def AStep.hasStore : AStep → Bool
@@ -122,7 +131,9 @@ def noPlainStore (code : List AStep) : Bool := !code.any AStep.hasStore
 /-- A step that writes the counter (RMW, CAS loop or plain store). -/
 def AStep.writes : AStep → Bool
   | .rmwSub .. | .rmwAdd .. | .casLoop .. => true
-  | s => s.hasStore
+  | .simple s => !s.isFence
+  | .branch _ _ thn _ els _ => !(thn.all Simple.isFence && els.all Simple.isFence)
+  | _ => false
 
 /-- The method never writes the counter. -/
 def readOnly (code : List AStep) : Bool := !code.any AStep.writes
